@@ -20,6 +20,7 @@ def values():
     import numpy as np
     import sympy as sym
     a, b, alpha, e, a_1, x1 = sym.symbols("a b alpha e a_1 x1")
+    q1a, q2_0, pix, sqrt2, p0 = sym.symbols("q1a q2_0 pix sqrt2 p0")   # look-alikes of registers, constants, functions, p-arrays
     V = []
     ints = [0, 7, -3, 2 ** 40, 2 ** 63 - 1, -2 ** 63]
     for v in ints:
@@ -56,11 +57,20 @@ def values():
     V.append(("array-edge", "float [[1e-300],[-1.7976931348623157e308]]", lambda: np.array([[1e-300], [-1.7976931348623157e308]])))
     V.append(("array-edge", "complex signs of zero", lambda: np.array([[complex(-0.0, -0.0), complex(1, -0.0)], [complex(-0.0, 2), complex(0.0, -5e-324)]])))
     V.append(("array-edge", "int64 extremes", lambda: np.array([[2 ** 63 - 1, -2 ** 63]], dtype=np.int64)))
+    # values that collide under a coarser equality: same shape and same memory image, different dtype
+    V.append(("array-collide", "int64 zeros 2x2", lambda: np.zeros((2, 2), dtype=np.int64)))
+    V.append(("array-collide", "float64 zeros 2x2", lambda: np.zeros((2, 2), dtype=np.float64)))
+    V.append(("array-collide", "int64 [[0,1],[1,0]]", lambda: np.array([[0, 1], [1, 0]], dtype=np.int64)))
+    V.append(("array-collide", "float64 [[0,5e-324],[5e-324,0]]", lambda: np.array([[0.0, 5e-324], [5e-324, 0.0]])))
+    V.append(("array-collide", "float64 [[0,1],[1,0]]", lambda: np.array([[0.0, 1.0], [1.0, 0.0]])))
+    V.append(("array-collide", "complex128 [[0,1],[1,0]]", lambda: np.array([[0, 1], [1, 0]], dtype=np.complex128)))
     V.append(("array-edge", "int32", lambda: np.array([[1, -2], [3, 4]], dtype=np.int32)))
     V.append(("array-edge", "float32", lambda: np.array([[0.5, -2.25]], dtype=np.float32)))
     syms = [a, 2 * a, a + b, a - 2 * b, a ** 2, a / b, 1 / a, a * b - 1, alpha + a, 0.1 * a, a / 3, 1e-7 * e, a_1 - a, x1 * 2.5 + alpha, -a, (a + b) / (a - 2), 1.5e-10 * alpha * e]
     for v in syms:
         V.append(("sympy", str(v), lambda v=v: v))
+    for v in (q1a, 2 * q1a - q2_0, pix + a, sqrt2 * 2, p0 - a, q2_0 / pix):
+        V.append(("sympy-lookalike-names", str(v), lambda v=v: v))
     for v in (sym.sqrt(a), sym.sin(a) + 1, sym.exp(-a) * b):
         V.append(("sympy-function", str(v), lambda v=v: v))
     return V
@@ -160,6 +170,7 @@ def build(ctx):
     arrays = [i for i in idx if V[i][0].startswith("array")]
     specs = []
     fam = collections.Counter()
+    label = {V[i][1]: i for i in idx}
 
     def add(f, s):
         specs.append(s)
@@ -183,10 +194,10 @@ def build(ctx):
         for noargs in (True, False):
             add("modes", {"ops": [{"op": "G", "noargs": noargs, "modes": modes, "npmodes": npm}, {"op": "H", "noargs": not noargs, "modes": modes[::-1], "npmodes": npm}]})
     # several arrays mixed with keywords: hoisting index arithmetic and A0, A1.. numbering
-    tt = [(None, None), (("g", []), None), (None, ("t", [("z", 1)])), (("g", [("s", scalars[3])]), ("tdm", []))]
+    tt = [(None, None), (("g", []), None), (None, ("t", [("z", 1)])), (("g", [("s", label["7"])]), ("tdm", []))]
     arr_sel = arrays
     for (A, B), (tg, ty) in itertools.product(itertools.product(arr_sel, repeat=2), tt):
-        spec = {"ops": [{"op": "G", "args": [A, 1], "kwargs": [("U", B), ("s", scalars[-3])], "modes": [0]}, {"op": "H", "args": [B], "modes": [1]}, {"op": "K", "noargs": True, "modes": [0, 1]}]}
+        spec = {"ops": [{"op": "G", "args": [A, 1], "kwargs": [("U", B), ("s", label["'with space'"])], "modes": [0]}, {"op": "H", "args": [B], "modes": [1]}, {"op": "K", "noargs": True, "modes": [0, 1]}]}
         if tg:
             spec["target"] = tg
         if ty:
